@@ -87,6 +87,10 @@ def check(case):
         n_unhit += not exp
         need(got is exp or got == exp, f"hittable({b}) = {got}, expected {exp}{ctx}")
 
+    for k in reversed(list(ticks)[:: max(1, len(list(ticks)) // 60)]):
+        b = F(k, 48)
+        need(eng.hittable(frac_beat(b)) == (not m.unhittable(b)), f"hittable({b}) changes when asked again in reverse order{ctx}")
+
     # note timing
     src = list(nd)
     if exp_notes is not None:
